@@ -68,24 +68,21 @@ MERGE_EXCEPTIONS = {
 def ts_wins(syn, crate, prop="C10"):
     r = Result("C10.R3", "in every Attr::merge each Option field is `self.f.or(other.f)` and each flag `self.f || other.f` (ts first); in every from_attrs the value parsed from #[ts] is the receiver of merge and the serde value its argument")
     for x, f in ATTR_FILES.items():
-        fn = syn.fn("<%s as Attr>::merge" % x, f)
-        if fn is None:
-            r.fail(prop, "anchor-missing %s::merge" % x, "merge not found")
+        from rules import field_rules as F
+        mb, summ = F.merge_summary(crate, x)
+        if summ is None:
+            r.fail(prop, "anchor-missing %s::merge" % x, "merge not found, or it neither builds the attribute value field by field nor returns an updated `self`", mb.file() if mb else None, mb.line() if mb else None)
             continue
-        st = [e for e in S.events(fn, "struct") if S.squash(e["path"]) == "Self"]
-        if not st:
-            r.fail(prop, "unrecognised-idiom %s::merge" % x, "merge does not build `Self { .. }`", fn["file"], fn["line"])
-            continue
-        for fld in st[0]["fields"]:
-            name, val = fld["name"], S.squash(fld["value"])
-            if (x, name) in MERGE_EXCEPTIONS:
+        for name, info in summ.items():
+            if (x, name) in MERGE_EXCEPTIONS and name == "docs":
                 r.inst(attr=x, field=name, form="exception: " + MERGE_EXCEPTIONS[(x, name)])
                 continue
-            ok = val in ("self.%s.or(other.%s)" % (name, name), "self.%s||other.%s" % (name, name))
-            r.inst(attr=x, field=name, form=val, ts_first=ok)
-            if not ok:
+            kind = "union" if (x, name) in MERGE_EXCEPTIONS else "flag" if info.get("ty") == "bool" else "option"
+            verdict, desc = F.merge_verdict(info, kind)
+            r.inst(attr=x, field=name, kind=kind, form=desc, verdict=verdict)
+            if verdict == "BAD":
                 r.fail(prop, "merge-precedence %s.%s" % (x, name),
-                       "merge computes `%s`: the value from #[ts(..)] (self) must win over #[serde(..)] (other)" % fld["value"], fn["file"], fld["line"])
+                       "merge computes %s from: %s. The value from #[ts(..)] (self) must win over #[serde(..)] (other), and the other side must still fill the gap" % (name, desc), mb.file(), mb.line())
     # from_attrs: receiver/argument roles (MIR)
     for x in tables.ATTRS:
         cands = [b for b in crate.bodies if b.path.endswith("%s::from_attrs" % x)]
@@ -93,15 +90,42 @@ def ts_wins(syn, crate, prop="C10"):
             r.fail(prop, "anchor-missing %s::from_attrs" % x, "from_attrs not found")
             continue
         b = cands[0]
-        merges = [(blk, t) for blk, t in b.calls() if fn_matches(t, r"Attr>::merge$", r"Attr::merge$") and not b.is_cleanup(blk)]
+        is_merge = lambda t: fn_matches(t, r"Attr>::merge$", r"Attr::merge$")
+        merges = [(blk, t) for blk, t in b.calls() if is_merge(t) and not b.is_cleanup(blk)]
+        known = {}
         if not merges:
-            r.fail(prop, "serde-not-merged %s::from_attrs" % x, "from_attrs does not merge serde attributes at all", b.file(), b.line())
-            continue
+            # parsing both spellings and merging them may live in a helper all from_attrs share
+            for cblk, ct in b.calls():
+                if b.is_cleanup(cblk):
+                    continue
+                for hb in crate.call_targets(b, ct, ()):
+                    hm = [(blk, t) for blk, t in hb.calls() if is_merge(t) and not hb.is_cleanup(blk)]
+                    if not hm or merges:
+                        continue
+                    # a predicate handed to the helper as a closure with a constant result is folded
+                    for blk, t in hb.calls():
+                        if hb.is_cleanup(blk) or not fn_matches(t, r"ops::(function::)?Fn(Once|Mut)?::call(_once|_mut)?$") or not t["args"]:
+                            continue
+                        k = op_local(t["args"][0])
+                        for _ in range(4):         # `f(..)` moves the parameter into a temporary first
+                            ds = M.real_defs(hb, k) if k is not None and k > hb.raw["arg_count"] else []
+                            if len(ds) == 1 and ds[0][1] != "term" and ds[0][2]["rv"]["k"] == "use" and op_local(ds[0][2]["rv"]["op"]) is not None:
+                                k = op_local(ds[0][2]["rv"]["op"])
+                        if k is None or not (1 <= k <= hb.raw["arg_count"]) or k > len(ct["args"]):
+                            continue
+                        for o in origins(b, op_local(ct["args"][k - 1])):
+                            if o["kind"] == "agg" and o["rv"].get("closure"):
+                                cb = [y for y in crate.bodies if y.path == o["rv"]["closure"]]
+                                vals = {(op_const(d["rv"]["op"]) or {}).get("int") if i != "term" and d["rv"]["k"] == "use" else None for _, i, d in (M.value_defs(cb[0], 0) if cb else [])}
+                                if len(vals) == 1 and None not in vals:
+                                    known[t["dst"]["l"]] = vals.pop()
+                    r.inst(fn=b.path, merges_in_helper=hb.path, predicate_results_known=known)
+                    b, merges = hb, hm
         if x in ("StructAttr", "EnumAttr"):
             # a container's #[serde(..)] attributes are merged on every path that returns Ok (with `cfg!` folded): no
             # property of the #[ts(..)] side (an override, a flag) decides whether serde is read at all
             avoid = {blk for blk, _ in merges} | {blk for blk, t2 in b.calls() if fn_matches(t2, r"FromResidual") and not b.is_cleanup(blk)}
-            live = live_blocks(b, avoid=avoid)
+            live = live_blocks(b, avoid=avoid, known=known)
             bypass = [blk for blk in live if not b.is_cleanup(blk) and b.term(blk)["k"] == "return"]
             r.inst(fn=b.path, serde_merged_on_every_success_path=not bypass)
             if bypass:
@@ -159,58 +183,75 @@ def ts_wins(syn, crate, prop="C10"):
 
 
 def feature_gate(syn, mir_nodefault, prop="C10"):
-    r = Result("C10.R4", "every use of serde attributes (parse_serde_attrs calls, the serde-with check) sits under `cfg!(feature = \"serde-compat\")` as a top-level conjunct")
+    r = Result("C10.R4", "in the derive crate compiled with --no-default-features (serde-compat off; `cfg!(feature = ..)` is then the constant false) no call of parse_serde_attrs and no read of `using_serde_with` outside merge() is reachable once constant conditions are folded: without the feature a serde attribute has no effect")
+    c = mir_nodefault["ts_rs_macros"]
     n = 0
-    for fn in syn.fns_in("macros/src"):
-        for e in fn["events"]:
-            target = None
-            if e["kind"] == "call" and "parse_serde_attrs" in e["func"]:
-                target = "parse_serde_attrs"
-            elif e["kind"] == "field" and e["member"] == "using_serde_with" and not any(c["k"] in ("field_init",) for c in e["ctx"]) \
-                    and fn["name"] == "assert_validity":
-                target = "using_serde_with"
-            if not target:
+    for b in c.bodies:
+        live = None
+        # the functions that produce the flag (the serde parser sets it, merge() combines it, Default clears it) are its writers
+        writer = any(st["k"] == "assign" and (".using_serde_with" in st["dst"]["p"] or (st["rv"]["k"] == "agg" and "using_serde_with" in (st["rv"].get("fields") or [])) or (st["rv"]["k"] == "ref" and st["rv"].get("mut") and ".using_serde_with" in st["rv"]["pl"]["p"]))
+                     for blk in range(b.n) for st in b.stmts(blk))
+        for blk in range(b.n):
+            if b.is_cleanup(blk):
                 continue
-            gated = False
-            for c in e["ctx"]:
-                if c["k"] in ("if",) and c["branch"] == "then" or c["k"] == "cond":
-                    cond = c.get("cond", "")
-                    if any(S.squash(p) == 'cfg!(feature="serde-compat")' for p in S.split_top(cond.replace("&&", "\x00"), "\x00")):
-                        gated = True
-            # `let needs_type = cfg!(feature = "serde-compat") && self.using_serde_with && ..`: gated inside the initialiser
-            for c in e["ctx"]:
-                if c["k"] == "let":
-                    le = [x for x in S.events(fn, "let") if x.get("id") == c.get("id")]
-                    if le and any(S.squash(p) == 'cfg!(feature="serde-compat")' for p in S.split_top(le[0]["init"].replace("&&", "\x00"), "\x00")):
-                        gated = True
-            if target == "using_serde_with" and not gated:
-                # the read is inside the condition itself: look at the enclosing if event
-                for ev in S.events(fn, "if"):
-                    if "using_serde_with" in ev["cond"]:
-                        gated = any(S.squash(p) == 'cfg!(feature="serde-compat")' for p in ev["cond"].split("&&"))
-            n += 1
-            r.inst(fn=fn["qual"], use=target, where="%s:%s" % (fn["file"], e["line"]), gated=gated)
-            if not gated:
-                r.fail(prop, "serde-ungated %s %s" % (fn["qual"], target), "%s is used without the serde-compat feature gate: serde attributes would have an effect with serde compatibility switched off" % target,
-                       fn["file"], e["line"])
-    if mir_nodefault is not None:
-        c = mir_nodefault["ts_rs_macros"]
-        for b in c.bodies:
-            live = live_blocks(b)
-            for blk, t in b.calls():
-                if fn_matches(t, r"utils::parse_serde_attrs$") and not b.is_cleanup(blk):
-                    r.inst(fn=b.path, config="--no-default-features", parse_serde_attrs_live=blk in live)
-                    if blk in live:
-                        f, l = M.user_span(t["span"])
-                        r.fail(prop, "serde-live-without-feature %s" % b.path, "with --no-default-features the call of parse_serde_attrs is still reachable", f, l)
+            uses = []
+            t = b.term(blk)
+            if t["k"] == "call" and fn_matches(t, r"utils::parse_serde_attrs$"):
+                uses.append(("parse_serde_attrs", t["span"]))
+            if not writer:
+                for st in b.stmts(blk):
+                    if st["k"] != "assign":
+                        continue
+                    rv = st["rv"]
+                    pls = [M.op_place(o) for o in ([rv.get("op")] if rv["k"] in ("use", "cast") else [rv.get("a"), rv.get("b")] if rv["k"] == "binop" else [rv.get("a")] if rv["k"] == "unop" else rv.get("ops", []) if rv["k"] == "agg" else []) if isinstance(o, dict)]
+                    if rv["k"] in ("ref", "discr"):
+                        pls.append(rv["pl"])
+                    if any(pl is not None and ".using_serde_with" in pl["p"] for pl in pls) and not (rv["k"] == "agg"):
+                        uses.append(("using_serde_with", st.get("span") or b.span))
+                if t["k"] == "switch" and M.op_place(t["discr"]) is not None and ".using_serde_with" in M.op_place(t["discr"])["p"]:
+                    uses.append(("using_serde_with", t.get("span") or b.span))
+            for target, sp in uses:
+                if live is None:
+                    live = live_blocks(b)
+                n += 1
+                f, l = M.user_span(sp)
+                r.inst(fn=b.path, use=target, where="%s:%s" % (f, l), config="--no-default-features", reachable=blk in live)
+                if blk in live:
+                    r.fail(prop, "serde-ungated %s %s" % (re.sub(r"::\{closure#\d+\}", "", b.path), target),
+                           "%s is used without the serde-compat feature gate (still reachable with --no-default-features): serde attributes would have an effect with serde compatibility switched off" % target, f, l)
+    if n == 0:
+        r.fail(prop, "anchor-missing serde uses", "no call of parse_serde_attrs and no read of using_serde_with found in the derive crate")
     r.floor = 5
     return r
 
 
-def live_blocks(body, avoid=()):
-    """reachability with constant switch operands folded (blocks in `avoid` are not entered)"""
+def _const_of(body, op, known, depth=0):
+    c = op_const(op)
+    if c is not None:
+        return c.get("int")
+    l = op_local(op)
+    if l is None or depth > 4:
+        return None
+    if l in known:
+        return known[l]
+    ds = [d for d in M.def_sites(body, l) if not body.is_cleanup(d[0])]
+    if len(ds) != 1 or ds[0][1] == "term":
+        return None
+    rv = ds[0][2]["rv"]
+    if rv["k"] == "use":
+        return _const_of(body, rv["op"], known, depth + 1)
+    if rv["k"] == "unop" and rv.get("op") == "Not" and body.local_ty(l) == "bool":
+        v = _const_of(body, rv["a"], known, depth + 1)
+        return None if v is None else 1 - v
+    return None
+
+
+def live_blocks(body, avoid=(), known=None):
+    """reachability with constant switch operands folded (blocks in `avoid` are not entered); `known`: locals whose
+    value is known from outside (the result of calling a predicate the caller passes as a constant closure)"""
     seen = set()
     work = [0]
+    known = known or {}
     while work:
         b = work.pop()
         if b in seen or b in avoid:
@@ -218,16 +259,11 @@ def live_blocks(body, avoid=()):
         seen.add(b)
         t = body.term(b)
         if t["k"] == "switch":
-            c = op_const(t["discr"])
-            if c is None:
-                l = op_local(t["discr"])
-                ds = M.def_sites(body, l) if l is not None else []
-                if len(ds) == 1 and ds[0][1] != "term" and ds[0][2]["rv"]["k"] == "use":
-                    c = op_const(ds[0][2]["rv"]["op"])
-            if c is not None and "int" in c:
+            c = _const_of(body, t["discr"], known)
+            if c is not None:
                 tg = None
                 for v, x in t["targets"]:
-                    if v == c["int"]:
+                    if v == c:
                         tg = x
                 work.append(tg if tg is not None else t["otherwise"])
                 continue
@@ -630,7 +666,7 @@ def run(ctx):
         T = tables.extract(c)
         res = [arm_agreement(T), supported_keys(T), eq_once(T), fallback_rule(T, c), skip_cursor_rule(c), serde_path_panics(c, syn), trailing_comma_rule(T), serde_lists_rule(c), nested_buffer_rule(c)]
         if fs == "default":
-            nd = ctx.mir("nodefault") if ctx.tier == "thorough" else None
+            nd = ctx.mir("nodefault") if ctx.tier == "thorough" else ctx.mir("nodefault_macros")
             from rules import templates as TT
             res += [ts_wins(syn, c), feature_gate(syn, nd), value_forms(T, syn), TT.written_value_rule(syn, "C10"), TT.post_merge_rule(c, "C10")]
         for r in res:
